@@ -158,6 +158,12 @@ func runUnit(u Unit, cfg *PropConfig, tier string, workdir string, res *checkRes
 			continue
 		}
 		seen[r] = true
+		if strings.HasPrefix(r, "lemma:") {
+			if err := e.RunLemma(strings.TrimPrefix(r, "lemma:")); err != nil {
+				res.engineErrors = append(res.engineErrors, err.Error())
+			}
+			continue
+		}
 		f := e.findFunc(r)
 		if f == nil {
 			res.engineErrors = append(res.engineErrors, "root function not found: "+r)
